@@ -534,6 +534,44 @@ TPTP4X = "/repo/tests/examples/tptp4X_linux"
 UNDERSCORE_ID = re.compile(r"(?<![A-Za-z0-9_$])_[A-Za-z0-9_]*")
 
 
+DECL = re.compile(r"^tff\((\w+), type, ([^:\s]+): (.+)\)\.$", re.M)
+
+
+def declaration_defects(text):
+    """Implementation-level reading of the declaration block of one emitted problem: every identifier declared more than
+    once, with the KIND of the clash.  Returns a list of (kind, identifier, types); the kinds that the known findings of C09
+    cover are named in KNOWN_DECL_KINDS, anything else (the same declaration twice, two constants of one name, ...) is new."""
+    decls = {}
+    for name, ident, typ in DECL.findall(text):
+        role = "preamble" if not re.match(r"(predicate|type_symbol|type_function_constant)_\d+$", name) else \
+               "predicate" if name.startswith("predicate_") else "symbol" if name.startswith("type_symbol_") else "placeholder"
+        decls.setdefault(ident, []).append((role, typ.strip()))
+    out = []
+    for ident, ds in decls.items():
+        if len(ds) < 2:
+            continue
+        roles = sorted(r for r, _ in ds)
+        types = [t for _, t in ds]
+        if "preamble" in roles:
+            kind = "clashes-with-preamble" if roles.count("preamble") == 1 else "preamble-declared-twice"
+        elif len(set(ds)) < len(ds):
+            kind = "same-declaration-twice"
+        elif roles == ["predicate"] * len(roles):
+            kind = "predicate-at-two-arities"
+        elif set(roles) <= {"placeholder", "predicate", "symbol"} and roles.count("symbol") <= 1:
+            kind = "mangling-clash:" + "+".join(sorted(set(roles)))
+        else:
+            kind = "other-duplicate:" + "+".join(roles)
+        out.append((kind, ident, types))
+    return out
+
+
+# duplicate declarations that the known findings `duplicate-declaration` / `clashes-with-preamble` of C09 describe
+KNOWN_DECL_KINDS = {"predicate-at-two-arities": "duplicate-declaration", "mangling-clash:predicate+symbol": "duplicate-declaration",
+                    "mangling-clash:placeholder+symbol": "duplicate-declaration", "mangling-clash:placeholder+predicate": "duplicate-declaration",
+                    "mangling-clash:placeholder+predicate+symbol": "duplicate-declaration", "clashes-with-preamble": "clashes-with-preamble"}
+
+
 def tptp_validate(pid, suite):
     """extra(): run every problem text the implementation emitted in `suite` through tptp4X (syntax oracle) and
     ask the model for name-hygiene issues; classify failures against known_findings.jsonl."""
@@ -544,6 +582,7 @@ def tptp_validate(pid, suite):
         imps = (outdir / f"{suite}.impl").read_text().splitlines()
         limit = 150 if tier == "quick" else 100000
         n_texts = n_fail = 0
+        decl_kinds = {}
         classes_seen = set()
         samples = []
         hyg_reqs = []
@@ -561,6 +600,15 @@ def tptp_validate(pid, suite):
                         continue
                     name, text = prob[0][1], prob[1][1]
                     n_texts += 1
+                    if pid == "C09":
+                        for kind, ident, types in declaration_defects(text):
+                            cls = KNOWN_DECL_KINDS.get(kind)
+                            decl_kinds[kind] = decl_kinds.get(kind, 0) + 1
+                            if cls and cls in known:
+                                classes_seen.add(cls)
+                            elif len([v for v in violations if v.get("kind", "").startswith("declaration block")]) < 5:
+                                violations.append({"property": pid, "kind": "declaration block: an identifier is declared more than once in a way no known finding describes",
+                                                   "clash": kind, "identifier": ident, "types": types, "request": r, "problem": name, "text": text})
                     f = Path(tmp) / "p.p"
                     f.write_text(text)
                     pr = subprocess.run([TPTP4X, "-q2", str(f)], stdout=subprocess.PIPE, stderr=subprocess.STDOUT, text=True, timeout=60)
@@ -596,7 +644,7 @@ def tptp_validate(pid, suite):
             for c in sorted(classes_seen):
                 findings_seen.append(known[c]["what"])
         return {"evaluations": n_texts, "distinct_nontrivial": n_texts, "samples": samples,
-                "tptp4X_checked": n_texts, "tptp4X_rejected": n_fail, "hygiene_checked": n_hyg,
+                "tptp4X_checked": n_texts, "tptp4X_rejected": n_fail, "hygiene_checked": n_hyg, "duplicate_declarations_by_kind": decl_kinds,
                 "known_classes_seen": sorted(classes_seen)}
     return extra
 
